@@ -205,4 +205,69 @@ MC_INIT
         mc::more_cases(g_calls - 1, g_calls - 1);
         flush_notes();
     });
+
+    // (3) LARGE: a string of 127..1000 (thorough ..70000) bytes with delimiters at 1,254..257,len-1, tokenised to the end
+    mc::add_check("strtok_large", [] {
+        init_arenas();
+        std::vector<size_t> LS = large_lengths();
+        int c0 = mc::choose((int)LS.size() * 2 * 2);
+        size_t L = LS[c0 / 4];
+        int reent = (c0 / 2) % 2, dense = c0 % 2;
+        const char *fn = reent ? "strtok_r" : "strtok";
+        mc::describe("%s on a %zu-byte string with delimiters at %s, \",;\" then \",\", called until NULL and once more; both guard placements", fn, L,
+                     dense ? "every 7th byte and 254..257" : "1,254,255,256,257,len-1");
+        mc::nontrivial();
+        set_window(L + 300);
+        std::vector<uint8_t> s(L + 1);
+        for (size_t i = 0; i < L; i++)
+            s[i] = (uint8_t)('a' + i % 23);
+        for (size_t p : large_positions(L))
+            if (p)
+                s[p] = (p & 1) ? ',' : ';';
+        if (dense)
+            for (size_t i = 3; i < L; i += 7)
+                s[i] = ',';
+        s[L] = 0;
+        unsigned long c_before = ncalls;
+        for (PL = AFTER; PL <= BEFORE; PL++)
+        {
+            uint8_t *bi = I[0].put(s.data(), L + 1, PL), *br = R[0].put(s.data(), L + 1, PL);
+            char *svi = nullptr, *svr = nullptr;
+            size_t maxcalls = L / 2 + 4;
+            for (size_t k = 0, nulls = 0; k < maxcalls && nulls < 2; k++)
+            {
+                const char *d = ",;";
+                uint8_t *di = I[2].put(d, 3, PL), *dr = R[2].put(d, 3, PL);
+                setK(fn, s.data(), L + 1, (const uint8_t *)d, 3);
+                snprintf(K.extra, sizeof K.extra, "(call %zu of the sequence)", k + 1);
+                char *ai = k ? nullptr : (char *)bi, *ar = k ? nullptr : (char *)br;
+                char *ri = nullptr, *rr = reent ? strtok_r(ar, (char *)dr, &svr) : strtok(ar, (char *)dr);
+                bool ok = mc::guarded([&] { ri = reent ? igc_strtok_r(ai, (char *)di, &svi) : igc_strtok(ai, (char *)di); });
+                ncalls++;
+                if (!ok)
+                {
+                    fault();
+                    break;
+                }
+                if (off(ri, bi) != off(rr, br))
+                {
+                    bad("return", "returned %s%+ld, want %s%+ld", ri ? "s" : "NULL", ri ? off(ri, bi) : 0, rr ? "s" : "NULL", rr ? off(rr, br) : 0);
+                    break;
+                }
+                unsigned long nb = nbad;
+                winchk(0, bi, L + 1);
+                if (nbad != nb)
+                    break;
+                if (!rr)
+                    nulls++;
+                note(reent ? F_strtok_r : F_strtok, rr ? 5 : 4);
+            }
+        }
+        PL = AFTER;
+        restore_window();
+        unsigned long calls = ncalls - c_before;
+        if (calls)
+            mc::more_cases(calls - 1, calls - 1);
+        flush_notes();
+    });
 }
